@@ -78,6 +78,9 @@ def clean_word(cells, width):
 class World:
     """everything that happens on one path: journal of stores, region events, statistics"""
 
+    def __deepcopy__(self, memo):  # the analysis world is not part of any object's state
+        return self
+
     def __init__(self):
         self.journal = []  # (mem, addr_term, n)
         self.events = []  # ("alloc"|"free", buffer, off, size)
@@ -154,6 +157,12 @@ class Mem:
         self.background = background
         self.name = name
         self.log = []
+
+    def __deepcopy__(self, memo):
+        """a byte-for-byte copy of the storage (what serialising the buffer's array gives): same history, no sharing"""
+        m = Mem(self.world, self.background, self.name + "~")
+        m.log = list(self.log)
+        return m
 
     def store(self, addr, cells):
         if not cells:
